@@ -28,7 +28,7 @@ RULE = ("one evaluation = one before/after pair of polls around a single deliver
         "(estimator, kind of perturbed unit, aggregate set, office, direction of change); non-trivial = the 'before' poll produced "
         "estimates and the perturbed unit's counts really changed")
 ASSUMPTIONS = [
-    "outlier-detection models are off in these nights: with them on, a blocklisted or zero-baseline unit at/above the threshold is part of the detector's training frame (reported separately as a probe family, not claimed)",
+    "outlier-detection models are on in about a third of the nights (a defect found with them on -- excluded units took part in the detector's fit -- is repaired, see known_findings.json)",
     "bootstrap float cells are compared to 1e-9 relative (BLAS summation order), integer-valued cells and conformal estimators bit-for-bit",
     "historical clause: config and preprocessed data are served by the sim bucket (get_object); one historical election",
 ]
@@ -39,9 +39,9 @@ def budget(tier):
     return dict(nights=140, wall_s=170) if tier == "quick" else dict(nights=4000, wall_s=1700)
 
 
-WORLD = dict(offices=["G", "S", "H"], unit_types=["precinct", "precinct", "county"], n_states=(1, 3), n_counties=(2, 6),
-             n_units=(2, 7), zero_baseline_frac=0.05)
-PROFILE = dict(estimators=["nonparametric", "gaussian", "bootstrap"], B=(2, 20), winsorize_p=0.0, outlier_models_p=0.0,
+WORLD = dict(offices=["G", "S", "H"], unit_types=["precinct", "precinct", "county"], n_states=(1, 3), n_counties=(2, 8),
+             n_units=(2, 10), zero_baseline_frac=0.05)
+PROFILE = dict(estimators=["nonparametric", "gaussian", "gaussian", "bootstrap"], B=(2, 20), winsorize_p=0.0, outlier_models_p=0.35,
                blocklist_p=0.5, thresholds=[100, 90, 60, 100])
 FEED = dict(p_loss=0.03, n_foreign=(0, 2), max_polls=0, surge_frac=0.02, boundary_frac=0.03, versions=(2, 5))
 
@@ -79,11 +79,19 @@ def make_spec(st, idx, tier):
     if kinds:
         kind = choice(st.shadow, kinds)
         f = choice(st.shadow, [c for c, k in cands if k == kind])
+        u = units[f]
         old = rows[f]
         new = dict(old)
-        scale = float(st.shadow.uniform(0.0, 3.0))
-        new["results_dem"] = int(round(old["results_dem"] * scale + st.shadow.integers(0, 50)))
-        new["results_gop"] = int(round(old["results_gop"] * float(st.shadow.uniform(0.0, 3.0)) + st.shadow.integers(0, 50)))
+        if chance(st.shadow, 0.4):
+            # a surge: the unit's count jumps far above anything the model predicts for its whole group (so that floor
+            # terms bind wherever the count is -- rightly or wrongly -- used)
+            big = int(max(u["baseline_weights"] or 0, 500) * float(st.shadow.uniform(8, 80)))
+            new["results_dem"] = int(big * float(st.shadow.uniform(0.2, 0.7)))
+            new["results_gop"] = int(big * 0.3)
+        else:
+            scale = float(st.shadow.uniform(0.0, 3.0))
+            new["results_dem"] = int(round(old["results_dem"] * scale + st.shadow.integers(0, 50)))
+            new["results_gop"] = int(round(old["results_gop"] * float(st.shadow.uniform(0.0, 3.0)) + st.shadow.integers(0, 50)))
         new["results_turnout"] = new["results_dem"] + new["results_gop"] + int(st.shadow.integers(0, 30))
         out.append(dict(t=round(cut, 3), k="poll", role="before"))
         out.append(dict(t=round(cut, 3), k="set_row", u=f, row=new, kind=kind))
